@@ -32,7 +32,7 @@ def cbc_shim(mod):
         mod.GLPK_CMD = lambda *a, **k: pulp.PULP_CBC_CMD(msg=False, timeLimit=20)
 
 
-def problem(inst, dep, graph, hints_on, explicit_zero=False):
+def problem(inst, dep, graph, hints_on, explicit_zero=False, asym=False):
     dcop, doms = build_dcop(inst)
     gm = importlib.import_module("pydcop.computations_graph." + graph)
     cg = gm.build_computation_graph(dcop)
@@ -41,6 +41,9 @@ def problem(inst, dep, graph, hints_on, explicit_zero=False):
     agents = []
     for i, a in enumerate(names):
         routes = {names[j]: dep["route"][i][j] for j in range(len(names)) if j != i}
+        if asym:
+            # AgentDef routes are per agent: a -> b and b -> a may differ (the YAML loader never produces that, the API allows it)
+            routes = {names[j]: (dep["route"][i][j] if i < j else {1: 5, 2: 1, 5: 2}[dep["route"][i][j]]) for j in range(len(names)) if j != i}
         hosting = {comps[c]: dep["hosting"][i][c % len(dep["hosting"][i])] for c in range(len(comps))
                    if dep["hosting"][i][c % len(dep["hosting"][i])] or (explicit_zero and (i + c) % 3 == 0)}
         # the default hosting cost is 0 (the library's default) for half of the deployments
@@ -106,6 +109,85 @@ def run(tier):
                             meta[rec["id"]] = {"method": method, "graph": graph, "hints": hints_on, "inst": inst, "dep": dep, "msg": mapping.get("_msg", [""])[0],
                                                "default_hosting_cost_zero": dep["k"] == 1}
                             recs.append(rec)
+    # two more strata, built from the footprints themselves so that the capacities are tight where it matters:
+    #  - "pinned": one agent has an EXPLICIT hosting cost 0 for two or three computations (the methods that read 0 as "must host
+    #    here" pin them there), default hosting cost 4, and that agent's capacity is just below / exactly / just above their sum;
+    #  - "hints": several must_host hints over two agents with capacities that just fit them, adhoc called under several seeds
+    #    (it shuffles, and retries when an attempt fails)
+    for inst in insts:
+        for graph in ("constraints_hypergraph", "factor_graph"):
+            base = {"nag": 3, "cap": [1000, 1000, 1000], "route": [[1, 2, 5], [2, 1, 1], [5, 1, 1]], "hosting": [[0], [0], [0]], "place": [1], "k": 2}
+            dcop, cg, _, names, comps, mem, load, _, fp = problem(inst, base, graph, False)
+            if len(comps) < 3:
+                continue
+            scale = 1 if all(float(x) == int(x) for x in fp.values()) else 1000
+            total = sum(float(x) for x in fp.values())
+            for npin in (2, 3):
+                pinned = comps[:npin]
+                need = sum(float(fp[c]) for c in pinned)
+                for slack in (-0.5, 0, min(float(x) for x in fp.values())):
+                    for others in (total, max(float(x) for x in fp.values())):
+                        caps = [need + slack, others, others]
+                        agents = [AgentDef(a, capacity=caps[i], default_route=1, routes={b: base["route"][i][j] for j, b in enumerate(names) if b != a},
+                                           default_hosting_cost=4, hosting_costs=({c: 0 for c in pinned} if i == 0 else {comps[-1]: 3}))
+                                  for i, a in enumerate(names)]
+                        for method, graphs in METHODS.items():
+                            if graph not in graphs or method == "oneagent":
+                                continue
+                            if quick and method in ("ilp_compref", "oilp_cgdp", "ilp_fgdp") and r.random() < 0.75:
+                                continue
+                            outcome, mapping = call(method, cg, agents, {}, mem, load)
+                            counts[method + ":" + outcome] += 1
+                            rec = {"id": len(recs), "comps": comps, "agents": names, "cap": {a: int(math.floor(caps[i] * scale)) for i, a in enumerate(names)},
+                                   "fp": {c: int(math.ceil(float(x) * scale)) for c, x in fp.items()}, "must": {},
+                                   "outcome": outcome, "mapping": {a: cs for a, cs in mapping.items() if not a.startswith("_")}, "capacityAware": True}
+                            meta[rec["id"]] = {"method": method, "graph": graph, "hints": False, "inst": inst, "dep": {"pinned": pinned, "caps": caps},
+                                               "msg": mapping.get("_msg", [""])[0], "default_hosting_cost_zero": False, "stratum": "pinned"}
+                            recs.append(rec)
+            must = {names[0]: comps[:2], names[1]: [comps[2]]}
+            for slack in (0, min(float(x) for x in fp.values())):
+                caps = [sum(float(fp[c]) for c in comps[:2]) + slack, float(fp[comps[2]]) + slack, total]
+                agents = [AgentDef(a, capacity=caps[i], default_route=1, routes={}, default_hosting_cost=0) for i, a in enumerate(names)]
+                for sd in range(4 if quick else 12):
+                    random.seed(1000 * sd + len(recs))
+                    outcome, mapping = call("adhoc", cg, agents, must, mem, load)
+                    counts["adhoc:" + outcome] += 1
+                    rec = {"id": len(recs), "comps": comps, "agents": names, "cap": {a: int(math.floor(caps[i] * scale)) for i, a in enumerate(names)},
+                           "fp": {c: int(math.ceil(float(x) * scale)) for c, x in fp.items()}, "must": must,
+                           "outcome": outcome, "mapping": {a: cs for a, cs in mapping.items() if not a.startswith("_")}, "capacityAware": True}
+                    meta[rec["id"]] = {"method": "adhoc", "graph": graph, "hints": True, "inst": inst, "dep": {"must": must, "caps": caps, "random_seed": 1000 * sd + len(recs)},
+                                       "msg": mapping.get("_msg", [""])[0], "default_hosting_cost_zero": True, "stratum": "hints"}
+                    recs.append(rec)
+    #  - "packing": synthetic, heterogeneous footprints (1, 1, 6, 3, 3, ...: a distribution method takes the footprint function
+    #    as an argument) on two agents whose capacities only fit well-chosen halves, one small must_host computation on each:
+    #    attempts fail and are retried depending on the shuffle
+    for inst in insts:
+        for graph in ("constraints_hypergraph", "factor_graph"):
+            base = {"nag": 2, "cap": [1000, 1000], "route": [[1, 2], [2, 1]], "hosting": [[0], [0]], "place": [1], "k": 1}
+            dcop, cg, _, names, comps, mem0, load, _, _ = problem(inst, base, graph, False)
+            if len(comps) < 5:
+                continue
+            pattern = [1, 1, 6, 3, 3, 2, 4, 1]
+            fpx = {c: pattern[i % len(pattern)] for i, c in enumerate(comps)}
+            memx = (lambda node, *a, _f=fpx, **k: _f[node.name])
+            total = sum(fpx.values())
+            must = {names[0]: [comps[0]], names[1]: [comps[1]]}
+            for caps in ([-(-total // 2), -(-total // 2)], [-(-total // 2) + 1, total // 2], [total // 2 + 2, total // 2 + 1]):
+                agents = [AgentDef(a, capacity=caps[i], default_route=1, routes={}, default_hosting_cost=0) for i, a in enumerate(names)]
+                for method, sds in (("adhoc", 8 if quick else 40), ("gh_cgdp", 2), ("heur_comhost", 1)):
+                    if graph not in METHODS[method]:
+                        continue
+                    for sd in range(sds):
+                        random.seed(77 * sd + len(recs))
+                        hm = must if method == "adhoc" else {}
+                        outcome, mapping = call(method, cg, agents, hm, memx, load)
+                        counts[method + ":" + outcome] += 1
+                        rec = {"id": len(recs), "comps": comps, "agents": names, "cap": {a: int(caps[i]) for i, a in enumerate(names)},
+                               "fp": dict(fpx), "must": hm, "outcome": outcome,
+                               "mapping": {a: cs for a, cs in mapping.items() if not a.startswith("_")}, "capacityAware": True}
+                        meta[rec["id"]] = {"method": method, "graph": graph, "hints": bool(hm), "inst": inst, "dep": {"must": hm, "caps": caps, "footprints": fpx},
+                                           "msg": mapping.get("_msg", [""])[0], "default_hosting_cost_zero": True, "stratum": "packing"}
+                        recs.append(rec)
     verdicts, jres = judge("Judge_C23", recs, chunk=3000)
     v.add_tlc(jres, "outcome of %d distribution calls judged (Judge_C23 / Distribution.tla)" % len(recs))
     for rec in recs:
@@ -125,7 +207,10 @@ def run(tier):
     v.cov["exhaustive"] = False
     v.cov["rule"] = ("DCOPs over 8 shapes as constraints hyper-graph, factor graph and pseudo-tree; TLC-drawn agent sets (2-3 quick / 1-4 agents; capacities "
                      "{2,5,12,40,1000}; hosting costs {0,3,8} with default 0 or 4; symmetric routes), with and without a must_host hint; each method called "
-                     "on the graph models it supports with the algorithm's own footprint / load functions; non-trivial = a mapping of more than one computation")
+                     "on the graph models it supports with the algorithm's own footprint / load functions; plus a 'pinned' stratum (explicit hosting cost 0 for "
+                     "2-3 computations on one agent whose capacity is just below / at / above their footprints) and a 'hints' stratum (three must_host "
+                     "hints over two agents with just-fitting capacities, adhoc under several seeds) and a 'packing' stratum (synthetic footprints 1,1,6,3,3,.. "
+                     "on two agents that only fit well-chosen halves, adhoc with must_host under 8-40 seeds); non-trivial = a mapping of more than one computation")
     v.cov["trusted_base"] = ["TLC (Distribution.tla)", "PuLP's CBC solves the ILP models (glpsol is absent)"]
     v.assumptions = ["SECP-specific methods (gh_secp_*, oilp_secp_*) and ilp_compref_fg are not exercised"]
     return v.finish()
